@@ -3,23 +3,13 @@ import AranyaV.Proofs.LowerStructs
 namespace AranyaV.Lang
 open AranyaV.Gen.Lang
 
-mutual
-/-- no struct literal inside (global `let` values of the fragment) -/
-def noStructLit : Expr → Bool
-  | .struct _ _ _ => false
-  | .some e | .ok e | .err e => noStructLit e
-  | _ => true
-end
-
-/-- the source-level side conditions of the fragment: function bodies inside `fragSs`, global
-`let`s without struct literals, and no `never` in declared parameter / return / field types (there
-is no surface syntax for it) -/
+/-- the source-level side conditions of the fragment: function bodies inside `fragSs`, and no
+`never` in declared parameter / return / field types (there is no surface syntax for it) -/
 structure FragProg (sp : SProgram) : Prop where
   bodies : ∀ fd ∈ sp.funs, fragSs fd.body = true
   rets : ∀ fd ∈ sp.funs, fd.ret.neverFree = true
   params : ∀ fd ∈ sp.funs, ∀ q ∈ fd.params, q.2.neverFree = true
   fields : ∀ s ∈ sp.structs, ∀ q ∈ s.2, q.2.neverFree = true
-  globals : ∀ g ∈ sp.globals, noStructLit g.2 = true
 
 /-- contract of the foreign functions handed to the compiler: declared parameter types have no
 `never`; on arguments fitting them a function does not report a conversion failure (`bad`), and
@@ -32,20 +22,117 @@ def FfiContract (mods : List (Nat × List FfiSig)) (ffi : Nat → Nat → List V
       | .ret v => Fit p v sig.ret
       | .fail => True)
 
+theorem fit_vtype_ty {p : Program} {v : Val} {t : Ty} (h : Fit p v v.vtype) (hf : v.vtype.fits t = true)
+    (hn : t.neverFree = true) : v.fitsType t = true := fitsType_of_fits hf hn h.1
+
+/-- `expression_value`: a constant is well typed at its own `vtype`; in particular a constant struct
+conforms to its definition (the check added to `expression_value`) -/
 theorem constValue_fits (p : Program) (enums : List (Nat × List Nat)) (structs : List (Nat × List (Nat × Ty)))
-    (hpe : p.enums = enums) :
-    ∀ (fuel : Nat) (e : Expr) (v : Val), constValue enums structs fuel e = some v → noStructLit e = true → Fit p v v.vtype
-  | 0, _, _, h, _ => by simp [constValue] at h
-  | fuel + 1, e, v, h, hn => by
+    (hpe : p.enums = enums)
+    (hps : ∀ n q, structs.find? (·.1 == n) = some q → p.structDef n = some q.2)
+    (hSnf : ∀ n d, p.structDef n = some d → ∀ q ∈ d, q.2.neverFree = true)
+    (hSnd : ∀ n d, p.structDef n = some d → (d.map (·.1)).Nodup) :
+    ∀ (fuel : Nat) (e : Expr) (v : Val), constValue enums structs fuel e = some v → Fit p v v.vtype
+  | 0, _, _, h => by simp [constValue] at h
+  | fuel + 1, e, v, h => by
     cases e <;> simp only [constValue] at h
     all_goals (try (cases h; done))
     all_goals (try (simp only [Option.some.injEq] at h; subst h; exact ⟨rfl, by simp [Val.wf]⟩))
     all_goals (try (simp only [Option.map_eq_some_iff] at h; obtain ⟨w, hw, rfl⟩ := h
-                    simp only [noStructLit] at hn
-                    have ih := constValue_fits p enums structs hpe fuel _ w hw hn
-                    simp only [Val.vtype]
+                    have ih := constValue_fits p enums structs hpe hps hSnf hSnd fuel _ w hw
+                    simp only [Val.vtype, constVtype] at ih ⊢
                     first | exact fit_some_mk ih | exact fit_ok_mk ih | exact fit_err_mk ih))
-    · simp [noStructLit] at hn
+    · -- struct literal
+      rename_i name fields srcs
+      split at h
+      · cases h
+      split at h
+      · cases h
+      rename_i k d hfind
+      split at h
+      · cases h
+      rename_i hchk
+      simp only [Bool.or_eq_true, not_or, Bool.not_eq_true, Bool.not_eq_eq_eq_not, Bool.not_true, Bool.not_false] at hchk
+      simp only [Option.map_eq_some_iff] at h
+      obtain ⟨fsF, hfold, rfl⟩ := h
+      have hpd : p.structDef name = some d := hps name (k, d) hfind
+      have hnd := hSnd name d hpd
+      have key : ∀ (fs : List (Nat × Expr)) (acc fsF : List (Nat × Val)),
+          fs.foldl (fun acc (f : Nat × Expr) => match acc, constValue enums structs fuel f.2, d.find? (·.1 == f.1) with
+            | Option.some fs, Option.some v, Option.some (_, ft) =>
+              if (constVtype v).fits ft then Option.some (setField fs f.1 v) else Option.none
+            | _, _, _ => Option.none) (some acc) = some fsF →
+          FldInv p d acc → FldInv p d fsF ∧
+            ∀ k, ((getField acc k).isSome = true ∨ k ∈ fs.map (·.1)) → (getField fsF k).isSome = true := by
+        intro fs
+        induction fs with
+        | nil =>
+          intro acc fsF h hinv
+          simp only [List.foldl_nil, Option.some.injEq] at h; subst h
+          exact ⟨hinv, by intro k hk; simpa using hk⟩
+        | cons f fs ihf =>
+          intro acc fsF h hinv
+          simp only [List.foldl_cons] at h
+          cases hv : constValue enums structs fuel f.2 with
+          | none =>
+            rw [hv] at h
+            simp only at h
+            have : ∀ (l : List (Nat × Expr)), l.foldl (fun acc (f : Nat × Expr) => match acc, constValue enums structs fuel f.2, d.find? (·.1 == f.1) with
+                | Option.some fs, Option.some v, Option.some (_, ft) =>
+                  if (constVtype v).fits ft then Option.some (setField fs f.1 v) else Option.none
+                | _, _, _ => Option.none) none = none := by
+              intro l; induction l with
+              | nil => rfl
+              | cons x xs ih => simpa using ih
+            rw [this] at h; cases h
+          | some w =>
+            have hnone : ∀ (l : List (Nat × Expr)), l.foldl (fun acc (f : Nat × Expr) => match acc, constValue enums structs fuel f.2, d.find? (·.1 == f.1) with
+                | Option.some fs, Option.some v, Option.some (_, ft) =>
+                  if (constVtype v).fits ft then Option.some (setField fs f.1 v) else Option.none
+                | _, _, _ => Option.none) none = none := by
+              intro l; induction l with
+              | nil => rfl
+              | cons x xs ih => simpa using ih
+            rw [hv] at h
+            cases hdf : d.find? (·.1 == f.1) with
+            | none => rw [hdf] at h; simp only at h; rw [hnone] at h; cases h
+            | some q =>
+              obtain ⟨k', ft⟩ := q
+              rw [hdf] at h
+              simp only at h
+              by_cases hfit : (constVtype w).fits ft = true
+              · simp only [hfit, if_true] at h
+                have ihw := constValue_fits p enums structs hpe hps hSnf hSnd fuel _ w hv
+                have hmem := List.mem_of_find?_eq_some hdf
+                have hwft : w.fitsType ft = true := fit_vtype_ty ihw hfit (hSnf name d hpd _ hmem)
+                obtain ⟨h1, h2⟩ := ihf _ fsF h (fldInv_set hinv ihw.2 (by intro q hq; rw [hdf] at hq; cases hq; exact hwft))
+                refine ⟨h1, ?_⟩
+                intro k2 hk2
+                apply h2
+                by_cases hkk : k2 = f.1
+                · subst hkk; left; rw [getField_setField_same]; rfl
+                · rcases hk2 with hk2 | hk2
+                  · left; rw [getField_setField_other _ _ _ _ hkk]; exact hk2
+                  · right
+                    simp only [List.map_cons, List.mem_cons] at hk2
+                    rcases hk2 with hk2 | hk2
+                    · exact absurd hk2 hkk
+                    · exact hk2
+              · simp only [hfit, Bool.false_eq_true, if_false] at h; rw [hnone] at h; cases h
+      obtain ⟨hinv, hpres⟩ := key fields [] fsF hfold ⟨by simp [wfFields], by intro k v h; simp [getField] at h⟩
+      refine ⟨by simp [Val.vtype, constVtype, Val.fitsType], ?_⟩
+      simp only [Val.wf]
+      refine ⟨⟨d, hpd, ?_⟩, hinv.1⟩
+      intro q hq
+      have hall : (d.all fun f => fields.any fun x => x.fst == f.fst) = true := by
+        cases hx : (d.all fun f => fields.any fun x => x.fst == f.fst)
+        · exact absurd hx hchk.2
+        · rfl
+      have := List.all_eq_true.mp hall q hq
+      obtain ⟨x, hx, hxq⟩ := List.any_eq_true.mp this
+      have hsome := hpres q.1 (Or.inr (List.mem_map.mpr ⟨x, hx, beq_iff_eq.mp hxq⟩))
+      obtain ⟨w, hw⟩ := Option.isSome_iff_exists.mp hsome
+      exact ⟨w, hw, hinv.2 q.1 w hw q (findTy_of_nodup hnd hq)⟩
     · split at h
       · cases h
       · rename_i k vs hfind
@@ -188,8 +275,20 @@ theorem lowerProgram_ctx {mods ffi sp p} (h : lowerProgram mods ffi sp = some p)
             · simp only [List.mem_singleton] at he; subst he
               exact ⟨_, hfind, rfl⟩)
       order _ cx1 ⟨⟨rfl, rfl⟩, by intro e he; cases he⟩ hdef
-  have hfit : ∀ P : Program, P.enums = sp.enums → ∀ g ∈ globals, Fit P g.2 g.2.vtype := by
-    intro P hP
+  have hfit : ∀ P : Program, P.enums = sp.enums → P.structs = sp.structs →
+      (∀ n d, P.structDef n = some d → (d.map (·.1)).Nodup) → ∀ g ∈ globals, Fit P g.2 g.2.vtype := by
+    intro P hP hPs hPnd
+    have hps : ∀ n q, cx1.structs.find? (·.1 == n) = some q → P.structDef n = some q.2 := by
+      intro n e he
+      obtain ⟨q, hq, hq2⟩ := hinv.2 e (List.mem_of_find?_eq_some he)
+      have he1 : e.1 = n := by have := List.find?_some he; simpa using this
+      rw [he1] at hq
+      simp only [Program.structDef, hPs, hq, Option.map_some, hq2]
+    have hPnf : ∀ n d, P.structDef n = some d → ∀ q ∈ d, q.2.neverFree = true := by
+      intro n d hd q hq
+      simp only [Program.structDef, hPs, Option.map_eq_some_iff] at hd
+      obtain ⟨s0, hs0, rfl⟩ := hd
+      exact hF.fields s0 (List.mem_of_find?_eq_some hs0) q hq
     exact foldl_bind_inv_mem (fun (gs : List (Nat × Val)) (g : Nat × Expr) =>
         match constValue sp.enums cx1.structs 64 g.2 with
         | Option.none => Option.none
@@ -208,9 +307,9 @@ theorem lowerProgram_ctx {mods ffi sp p} (h : lowerProgram mods ffi sp = some p)
             rcases List.mem_append.mp hg with hg | hg
             · exact ha g hg
             · simp only [List.mem_singleton] at hg; subst hg
-              exact constValue_fits P _ _ hP _ _ _ hv (hF.globals b hb))
+              exact constValue_fits P _ _ hP hps hPnf hPnd _ _ _ hv)
       (by simp) hgl
-  refine ⟨_, ctx_of_fold _ sp _ hfuns ⟨rfl, hfit _ rfl⟩ ?_ ?_ ?_ hnd rfl hF hinv.1.2 ?_⟩
+  refine ⟨_, ctx_of_fold _ sp _ hfuns ⟨rfl, hfit _ rfl rfl hnd⟩ ?_ ?_ ?_ hnd rfl hF hinv.1.2 ?_⟩
   · intro mi pi m fns sig hm hs
     obtain ⟨h1, h2⟩ := hffi mi pi m fns sig (by rw [← hinv.1.1]; exact hm) hs
     exact ⟨h1, h2 _⟩
